@@ -22,11 +22,11 @@ OffLists == IF Q THEN {<<<<0, 10>>>>, <<<<0, 1>>, <<20, 300>>>>}
             ELSE {<<>>, <<<<0, 1>>, <<20, 300>>>>, <<<<7, 0>>, <<1000, 65536>>, <<5, 5>>>>}
 ChunkLists == IF Q THEN {<<>>, <<2, 0, 1>>, <<17>>} ELSE {<<>>, <<0>>, <<1>>, <<2, 0, 1>>, <<17>>, <<4, 5, 16>>}
 ErrLists == IF Q THEN {<<3>>, <<5, 0>>} ELSE {<<3>>, <<0>>, <<10, 1, 17>>}
-Trails == IF Q THEN {0, 2} ELSE {0, 1, 3}
+Trails == IF Q THEN {0, 2} ELSE {0, 3}
 V1ErrArgs == <<10, 1>>      \* v1 error responses are recognised by their first argument (a 10-byte code here)
-AllMax == IF Q THEN 9 ELSE 12           \* all compositions when the stream has at most AllMax cut positions
-RadOne == IF Q THEN 1 ELSE 500          \* single cuts: within this distance of a part boundary (thorough: everywhere)
-PairWide == 45                          \* thorough: streams up to this length get all pairs of cuts within 1 of a boundary,
+AllMax == IF Q THEN 9 ELSE 11           \* all compositions when the stream has at most AllMax cut positions
+RadOne == IF Q THEN 1 ELSE 4            \* single cuts: within this distance of a part boundary
+PairWide == 30                          \* thorough: streams up to this length get all pairs of cuts within 1 of a boundary,
                                         \* longer ones all pairs of boundary cuts; quick: pairs isolating one part (AdjPairs)
 Triples == FALSE                        \* triples of boundary cuts (off: the row budget goes to more shapes)
 
